@@ -6,13 +6,16 @@ import JunoModel.C20.ProofsRefine
 import JunoModel.C20.ProofsLastUpd
 import JunoModel.C20.ProofsAlias
 import JunoModel.C20.ProofsMisc
+import JunoModel.C20.ProofsPoller
 /-!
 C20 — property theorems (statements only; helper lemmas are in `Proofs*.lean`).
 Every theorem in this module is an obligation listed in evidence/C20.json with its axioms.
 
-The model (`Model.lean`, `Heap.lean`, `Alias.lean`) transcribes
+The model (`Model.lean`, `Heap.lean`, `Alias.lean`, `Poller.lean`) transcribes
 `sync/preconfirmed/chain_storage.go`, the adapters that build its entries
-(`sn2core.AdaptPreConfirmedBlock/WithDelta`, `core.StateDiff.Merge`) and `core/pending/state.go`.
+(`sn2core.AdaptPreConfirmedBlock/WithDelta`, `core.StateDiff.Merge`), `core/pending/state.go`, the
+single writer `sync/preconfirmed/poller.go` (section 5: `prun ins`, any data source) and the
+empty-block fallback of `sync/helpers.go`.
 
 `run ops` is the content of `ChainStorage.inner` after ANY history `ops` of writer calls
 (`ApplyUpdate` with any update variant — full block, appended-transactions delta, no-change —
@@ -291,6 +294,38 @@ theorem single_entry_view_state (e : PreConf) (b : Nat) (baseAt : Nat → Option
       else .error .notFound :=
   ⟨rfl, single_view_state e b baseAt⟩
 
+
+/-- **The empty-block fallback, whole.** When the storage holds no slot `height+1`,
+`Synchronizer.PreConfirmedChain()` builds its view around `MakeEmptyPreConfirmedForParent`, whose state
+diff is `makeStateDiffForEmptyBlock` (transcribed: `emptyBlockDiff`, `BlockHashLag = 10`): if the
+block-hash lookup fails so does the call; otherwise the view is the single blank block `height+1`, and
+every read through it is the read on the canonical state at the head — except storage slot
+`height+1-10` of contract `0x1`, which (from block 10 on) reads the hash of block `height+1-10`. -/
+theorem fallback_view_is_head_state_plus_blockhash (height : Nat) (cached : Option Nat) (s : Store)
+    (hashOf : Nat → Option Felt) (hs : (snapshotFor s (height + 1)).length = 0) :
+    match emptyBlockDiff hashOf (height + 1) with
+    | none => readerViewFull height cached s hashOf = none
+    | some d =>
+      readerViewFull height cached s hashOf = some { nodes := [emptyPreConfirmedFor height d], length := 1 } ∧
+      ∀ base : Base,
+        let p := overlayOf [emptyPreConfirmedFor height d] base (height + 1)
+        (∀ a, p.classHash a = base.classHash a) ∧ (∀ a, p.nonce a = base.nonce a) ∧
+        (∀ h, p.cls h = base.cls h) ∧ (∀ h, p.casm h = base.casm h) ∧ (∀ h, p.casmV2 h = base.casmV2 h) ∧
+        (∀ a k, p.storage a k =
+          if a = blockHashContract ∧ blockHashLag ≤ height + 1 ∧ k = height + 1 - blockHashLag then hashOf k
+          else base.storage a k) := by
+  cases hd : emptyBlockDiff hashOf (height + 1) with
+  | none => simp [readerViewFull, hs, hd]
+  | some d =>
+    refine ⟨?_, fun base => fallback_reads height hashOf d hd base⟩
+    simp [readerViewFull, readerView, hs, hd]
+
+-- the lag boundary: block 9 writes nothing, block 10 writes the hash of block 0; a failing lookup fails the call
+example : emptyBlockDiff (fun n => some (7000 + n)) 9 = some {} := by decide
+example : emptyBlockDiff (fun n => some (7000 + n)) 10 = some { storage := [((1, 0), 7000)] } := by decide
+example : emptyBlockDiff (fun _ => none) 10 = none := by decide
+example : emptyBlockDiff (fun _ => none) 9 = some {} := by decide
+
 /-! ### wire updates and the adapters' contract
 
 The adapters index receipts and state diffs by transaction and dereference `L1GasPrice` without
@@ -398,6 +433,173 @@ theorem lookup_exact_receipt (r : Reader) (h : Felt) :
     (receiptByHash r h = none ↔ ∀ e ∈ r.newestFirst, ∀ rc ∈ e.receipts, rc.txHash ≠ h) :=
   ⟨fun _ _ hs => receiptByHash_some hs, receiptByHash_none⟩
 
+
+
+/-- **Per-entry lookups** (`(*PreConfirmed).TransactionByHash / ReceiptByHash`, what the rpc handlers
+call on an entry of a view; the index goes to `PreConfirmedStateBeforeIndexAt`): a hit is the FIRST
+transaction of that entry with that hash, at its position; a miss means the entry holds none. -/
+theorem entry_lookup_exact (e : PreConf) (h : Felt) :
+    (∀ tx k, e.txByHash h = some (tx, k) →
+      e.txs[k]? = some tx ∧ tx.hash = h ∧ ∀ j, j < k → ∀ t, e.txs[j]? = some t → t.hash ≠ h) ∧
+    (e.txByHash h = none ↔ ∀ t ∈ e.txs, t.hash ≠ h) ∧
+    (∀ rc, e.receiptByHash h = some rc → rc ∈ e.receipts ∧ rc.txHash = h) ∧
+    (e.receiptByHash h = none ↔ ∀ rc ∈ e.receipts, rc.txHash ≠ h) := by
+  refine ⟨?_, txIndexFrom_none, ?_, ?_⟩
+  · intro tx k hs
+    have := txIndexFrom_some hs
+    simpa using this.2
+  · intro rc hs
+    exact ⟨List.mem_of_find?_eq_some hs, by simpa using List.find?_some hs⟩
+  · simp [PreConf.receiptByHash, List.find?_eq_none]
+
+/-! ## 5. the writer: `preconfirmed.Poller` against an arbitrary data source
+
+`prun ins` is the storage after ANY history of ticks of the real writer (`Poller.lean`: `tick`,
+`backfill`, `apply`, `fetchDeclaredClasses`, `atTip`), each tick in ANY environment: any canonical
+height (advanced / reverted at will between ticks), any cached `highestBlockHeader`, and a data source
+that answers every poll with any update shape (full block / delta / no-change), any identifier, any
+content, any block number, or an error, and any `Class` call with any definition or an error. -/
+
+/-- every poller history is a history of writer operations: all statements above about `run ops`
+hold for the storages the real writer produces -/
+theorem poller_history_is_a_writer_history (ins : List TickIn) : ∃ ops : List Op, prun ins = run ops :=
+  prun_reach ins
+
+/-- **The decision rule of the class back-fill.** What a successful `fetchDeclaredClasses(storedTip,
+update)` returns has as keys EXACTLY: the classes the update's own transaction diffs declare, plus —
+only when the update is a delta or a no-change (the re-poll continues the stored tip's round) — the
+classes the stored tip's block diff declares. For a full block (a fresh round, whatever its
+identifier) nothing of the stored tip is carried over. -/
+theorem fetched_classes_exact {src : Source} {tip : Option PreConf} {u : Update} {cls : AMap Felt Nat} {ev : Ev}
+    (hf : fetchDeclaredClasses src tip u = (some cls, ev)) (h : Felt) :
+    AMap.has cls h = true ↔
+      (∃ d ∈ updateDiffs u, Declares d h) ∨
+      ((u matches .block ..) = false ∧ ∃ t, tip = some t ∧ Declares t.diff h) := by
+  constructor
+  · intro hh
+    rcases fetch_keys hf h hh with ⟨d, hd, hdecl⟩ | h1
+    · right
+      cases u with
+      | block _ _ _ => simp [storedDiffOf] at hd
+      | delta _ _ =>
+        simp only [storedDiffOf, Option.map_eq_some_iff] at hd
+        obtain ⟨x, hx, rfl⟩ := hd
+        exact ⟨rfl, x, hx, hdecl⟩
+      | noChange =>
+        simp only [storedDiffOf, Option.map_eq_some_iff] at hd
+        obtain ⟨x, hx, rfl⟩ := hd
+        exact ⟨rfl, x, hx, hdecl⟩
+    · exact Or.inl h1
+  · rintro (h1 | ⟨hb, t, ht, hdecl⟩)
+    · exact fetch_keys_complete hf h (Or.inr h1)
+    · apply fetch_keys_complete hf h
+      left
+      cases u with
+      | block _ _ _ => simp at hb
+      | delta _ _ => exact ⟨t.diff, by simp [storedDiffOf, ht], hdecl⟩
+      | noChange => exact ⟨t.diff, by simp [storedDiffOf, ht], hdecl⟩
+
+/-- **Every entry the poller ever stores carries class definitions only of classes its OWN block
+declares** — for all tick histories, all data sources, all head movements. In particular a slot whose
+round was replaced (full block with another identifier on the by-number re-poll of the old tip) carries
+nothing of the round it replaced. -/
+theorem poller_entries_carry_only_declared_classes (ins : List TickIn) :
+    match prun ins with
+    | none => True
+    | some r => ∀ e ∈ r.nodes, ∀ h, AMap.has e.classes h = true → Declares e.diff h :=
+  prun_sound ins
+
+/-- **The class table of a view is that of its blocks.** For every poller history, every view
+`SnapshotForBlock(b)` and every block `blk` of it: a class the state `PreConfirmedStateAt(blk)`
+resolves from the overlay is declared by one of the view's blocks up to `blk` (`uptoBlock`: the
+entries the merge loop visits); every other class hash is answered exactly as the canonical state
+below the view answers it. The view never resolves a class that none of its blocks (nor the base)
+declares. -/
+theorem poller_view_classes_declared_by_view_blocks (ins : List TickIn) (b blk : Nat)
+    (baseAt : Nat → Option Base) (p : PState)
+    (hp : stateAt (snapshotFor (prun ins) b) blk baseAt = .ok p) (h : Felt) :
+    (AMap.has p.classes h = true →
+      ∃ e ∈ uptoBlock (snapshotFor (prun ins) b).oldestFirst blk, Declares e.diff h) ∧
+    (AMap.has p.classes h = false → p.cls h = p.head.cls h) := by
+  refine stateAt_classes_declared ?_ hp h
+  intro e he
+  obtain ⟨r, hr, hmem⟩ := snapshot_nodes_sub _ _ e he
+  have := prun_sound ins
+  rw [hr] at this
+  exact this e hmem
+
+/-- **A slot written by the re-poll step of a tick is class-EXACT.** On a well-formed, class-sound
+storage (both are invariants: `stored_chain_wellformed` for every writer history of fewer than `2^64`
+operations, `poller_entries_carry_only_declared_classes` for every poller history), let `mostRecent` be
+what `tick` computes from the view for `oldestPreConf`. If `fetchDeclaredClasses(mostRecent, update)`
+succeeds and `ApplyUpdate(update, n, t, oldestPreConf, fetched)` changes the chain — whatever the
+update: full block (bootstrap, extension, same or new round), delta, no-change — then the affected
+entry carries the definition of EXACTLY the classes its block diff declares. (That the `storedTip`
+handed to the fetch is the slot a delta / no-change lands on is proved, not assumed:
+`mostRecentOf_of_changed`.) Exactness is NOT an invariant of all slots over time: see
+`poller_tip_classes_incomplete`. -/
+theorem repolled_slot_classes_exact {s : Store} (hw : StoreWF s) (hs : StoreSound s) {src : Source}
+    {u : Update} {cls : AMap Felt Nat} {ev : Ev} {n t o : Nat}
+    (hf : fetchDeclaredClasses src (mostRecentOf s o) u = (some cls, ev))
+    {chain : Reader} {aff : PreConf} (hc : computeUpdate s u n t o cls = .changed chain aff) :
+    ∀ h, AMap.has aff.classes h = true ↔ Declares aff.diff h :=
+  tick_repoll_changed_exact hw hs hf hc
+
+private def pwtx (h : Nat) (d : Diff) : WireTx :=
+  { tx := { hash := h, tag := h }, bad := false, rcpt := { txHash := h, tag := h, events := 0 }, diff := d }
+private def psrc (latest : Option (Update × Nat)) (byNumber : Nat → Option Update := fun _ => none) : Source :=
+  { latest := latest, byNumber := byNumber, classDef := fun h => some (3000 + h) }
+private def ptickIn (height : Nat) (s : Source) : TickIn := { height := some height, highest := some height, src := s }
+
+-- `repolled_slot_classes_exact`: the hypotheses are satisfiable and the conclusion is not empty
+example : ∃ (s : Store) (cls : AMap Felt Nat) (chain : Reader) (aff : PreConf),
+    StoreWF s ∧ StoreSound s ∧
+    computeUpdate s (.block "r2" true [pwtx 2 { declaredV0 := [201] }]) 11 1 11 cls = .changed chain aff ∧
+    aff.classes = [(201, 3201)] :=
+  ⟨run [.apply (.block "r1" true []) 11 0 11 []], [(201, 3201)], _, _, run_wf _ (by decide),
+    by intro e he; simp at he
+       subst he; intro h hh; simp [AMap.has, AMap.get] at hh,
+    rfl, rfl⟩
+
+/-- head 10. Tick 1: the latest block is 11, round `r1`, declaring class 200 (applied by the tick
+itself: no classes). Tick 2: the latest block is 12; the by-number re-poll of 11 answers a FULL block
+of a NEW round `r2` declaring class 201 only. -/
+private def phist : List TickIn :=
+  [ptickIn 10 (psrc (some (.block "r1" true [pwtx 1 { declaredV0 := [200] }], 11))),
+   ptickIn 10 (psrc (some (.block "s1" true [], 12))
+     (fun n => if n = 11 then some (.block "r2" true [pwtx 2 { declaredV0 := [201] }]) else none))]
+
+-- the replaced slot 11 carries class 201 (its own) and NOT class 200 of the round it replaced
+example : (match prun phist with
+    | some r => r.nodes.map (fun e => (e.number, e.ident, e.classes))
+    | none => []) = [(12, "s1", []), (11, "r2", [(201, 3201)])] := by decide
+
+-- the same second tick answered with a NO-CHANGE for the re-poll: the stored tip's class 200 IS carried
+example : (match prun [ptickIn 10 (psrc (some (.block "r1" true [pwtx 1 { declaredV0 := [200] }], 11))),
+      ptickIn 10 (psrc (some (.block "s1" true [], 12)) (fun n => if n = 11 then some .noChange else none))] with
+    | some r => r.nodes.map (fun e => (e.number, e.ident, e.classes))
+    | none => []) = [(12, "s1", []), (11, "r1", [(200, 3200)])] := by decide
+
+/-- **Negation witness for completeness at the tip**: the tick applies the sequencer's latest block
+with NO classes (`p.apply(update, …, nil)`), so the tip entry declares class 200 while carrying no
+definition for it (`Class(200)` through the view is not found until a later backfill re-polls the
+slot). The statement "the classes of a view are EXACTLY those its blocks declare" is therefore false
+of juno in the ⊇ direction; the ⊆ direction is `poller_entries_carry_only_declared_classes`. -/
+theorem poller_tip_classes_incomplete :
+    ∃ (ins : List TickIn) (r : Reader) (e : PreConf) (h : Felt),
+      prun ins = some r ∧ r.nodes.head? = some e ∧ h ∈ e.diff.declaredV0 ∧ AMap.has e.classes h = false :=
+  ⟨phist.take 1, _, _, 200, rfl, rfl, by decide, by decide⟩
+
+-- the fetch rule on concrete inputs: full block vs delta over a tip declaring 200
+example : (fetchDeclaredClasses (psrc none)
+    (some { number := 11, ident := "r1", txCount := 0, eventCount := 0, txs := [], receipts := [], txDiffs := [],
+            diff := { declaredV0 := [200] } })
+    (.block "r2" true [pwtx 2 { declaredV0 := [201] }])).1 = some [(201, 3201)] := by decide
+example : (fetchDeclaredClasses (psrc none)
+    (some { number := 11, ident := "r1", txCount := 0, eventCount := 0, txs := [], receipts := [], txDiffs := [],
+            diff := { declaredV0 := [200] } })
+    (.delta "r1" [pwtx 2 { declaredV0 := [201] }])).1 = some [(201, 3201), (200, 3200)] := by decide
+
 /-! ## non-vacuity -/
 
 private def wtx (h tag : Nat) (d : Diff) : WireTx :=
@@ -421,6 +623,7 @@ example : (readerView 11 (some 13) (run hist) {}).oldestFirst.map (·.number) = 
 example : (readerView 10 (some 13) (run hist) {}).oldestFirst.map (·.number) = [11] := by decide
 example : (txByHash (snapshotFor (run hist) 12) 4).map (·.tag) = some 4 := by decide
 example : txByHash (snapshotFor (run hist) 12) 1 = none := by decide
+example : ((snapshotFor (run hist) 12).newestFirst.map fun e => (e.txByHash 4).map (·.2)) = [some 1, none] := by decide
 example : (receiptByHash (snapshotFor (run hist) 12) 2).map (·.2) = some 12 := by decide
 example : ((hsnapshotFor (hrun (hist.take 6)) 11).view (hrun hist).heap).map (·.number) = [13, 12, 11] := by
   decide
